@@ -39,8 +39,9 @@ Definition expected_skeleton : list (string * string * list string) := [
   ("_handle_digestmd5_rspauth", "disconnect_mem_error", []);
   ("_handle_features", "_auth", []);
   ("_handle_features", "xmpp_timed_handler_delete", ["_handle_missing_features"]);
+  ("_handle_features", "xmpp_timed_handler_delete", ["_handle_missing_features_sasl"]);
   ("_handle_features_compress", "handler_add", ["_handle_compress_result"; "XMPP_NS_COMPRESSION"; "NULL"; "NULL"]);
-  ("_handle_features_compress", "xmpp_timed_handler_delete", ["_handle_missing_features"]);
+  ("_handle_features_compress", "xmpp_timed_handler_delete", ["_handle_missing_features_sasl"]);
   ("_handle_features_sasl", "_do_bind", []);
   ("_handle_features_sasl", "disconnect_mem_error", []);
   ("_handle_features_sasl", "handler_add", ["_handle_sm"; "XMPP_NS_SM"; "NULL"; "NULL"]);
@@ -56,11 +57,11 @@ Definition expected_skeleton : list (string * string * list string) := [
   ("_handle_missing_legacy", "xmpp_disconnect", []);
   ("_handle_missing_session", "xmpp_disconnect", []);
   ("_handle_open_compress", "handler_add", ["_handle_features_compress"; "XMPP_NS_STREAMS"; "'features'"; "NULL"]);
-  ("_handle_open_compress", "handler_add_timed", ["_handle_missing_features"; "FEATURES_TIMEOUT"]);
+  ("_handle_open_compress", "handler_add_timed", ["_handle_missing_features_sasl"; "FEATURES_TIMEOUT"]);
   ("_handle_open_sasl", "handler_add", ["_handle_features_sasl"; "XMPP_NS_STREAMS"; "'features'"; "NULL"]);
   ("_handle_open_sasl", "handler_add_timed", ["_handle_missing_features_sasl"; "FEATURES_TIMEOUT"]);
   ("_handle_open_tls", "handler_add", ["_handle_features"; "XMPP_NS_STREAMS"; "'features'"; "NULL"]);
-  ("_handle_open_tls", "handler_add_timed", ["_handle_missing_features"; "FEATURES_TIMEOUT"]);
+  ("_handle_open_tls", "handler_add_timed", ["_handle_missing_features_sasl"; "FEATURES_TIMEOUT"]);
   ("_handle_proceedtls_default", "conn_open_stream", []);
   ("_handle_proceedtls_default", "conn_prepare_reset", ["_handle_open_tls"]);
   ("_handle_proceedtls_default", "conn_tls_start", []);
